@@ -44,6 +44,15 @@ fn rposition<P: FnMut(&Run) -> bool>(v: &Vec<Run>, pred: P) -> (r: Option<usize>
         None => forall|j: int| 0 <= j < v@.len() ==> call_ensures(pred, (&#[trigger] v@[j],), false),
     }
 { unimplemented!() }
+/// stands for `v.iter().position(pred)`
+#[verifier::external_body]
+fn position<P: FnMut(&Run) -> bool>(v: &Vec<Run>, pred: P) -> (r: Option<usize>)
+    requires forall|i: int| 0 <= i < v@.len() ==> call_requires(pred, (&#[trigger] v@[i],)),
+    ensures match r {
+        Some(p) => p < v@.len() && call_ensures(pred, (&v@[p as int],), true) && (forall|j: int| 0 <= j < p ==> call_ensures(pred, (&#[trigger] v@[j],), false)),
+        None => forall|j: int| 0 <= j < v@.len() ==> call_ensures(pred, (&#[trigger] v@[j],), false),
+    }
+{ unimplemented!() }
 /// stands for `run.iter().any(pred)`
 #[verifier::external_body]
 fn any_in<P: FnMut(&Tbl) -> bool>(run: &Run, pred: P) -> (r: bool)
@@ -178,6 +187,7 @@ proof fn lemma_permutes_disjoint(a: Seq<Tbl>, b: Seq<Tbl>)
 //@ SUBST `for run in & runs` ==> `for run in runs.iter()`
 //@ SUBST `in run . iter ( )` ==> `in run.0.iter()`
 //@ SUBST `new_runs . iter ( ) . rposition (` ==> `rposition(&new_runs,`
+//@ SUBST `new_runs . iter ( ) . position (` ==> `position(&new_runs,`
 //@ SUBST `existing_run . iter ( ) . any (` ==> `any_in(existing_run,`
 //@ SUBST `Vec < Run >` ==> `Vec<Run>`
 fn optimize_runs(runs: Vec<Run>) -> /*+*/(out: /*-*/Vec<Run>/*+*/)
